@@ -230,6 +230,10 @@ def bounded_raytrace(kind):
     S /= np.sqrt((S * S).sum(axis=1))[:, None]
     if tilt is not None:
         P[0] = 0.0     # axial ray of the untilted frame is just another skew ray here
+    if rng.random() < 0.25:
+        # a collimated launch written the way the docstring does, S = [0, 0, 1] as integers
+        S = np.zeros((nr, 3), dtype=int)
+        S[:, 2] = 1
     Ph, Sh = raytrace(surfs, P, S, 0.6328, n_ambient=1.0)
     check('no-nan', bool(np.isfinite(Ph).all() and np.isfinite(Sh).all()))
     check('unit-direction-cosines', bool(np.allclose((Sh * Sh).sum(axis=-1), 1.0, atol=1e-9)))
